@@ -66,7 +66,7 @@ typedef struct {
 } TcpDev;
 
 static void _telnet_init(Device *dev);
-static void _telnet_preprocess(Device * dev);
+static void _telnet_preprocess(Device * dev, int nread);
 
 static void _parse_options(TcpDev *tcp, char *flags)
 {
@@ -278,9 +278,9 @@ void tcp_disconnect(Device * dev)
     dbg(DBG_DEVICE, "tcp_disconnect(%s): disconnected", dev->name);
 }
 
-void tcp_preprocess(Device *dev)
+void tcp_preprocess(Device *dev, int nread)
 {
-    _telnet_preprocess(dev);
+    _telnet_preprocess(dev, nread);
 }
 
 static void _telnet_sendopt(Device *dev, int cmd, int opt)
@@ -380,8 +380,10 @@ static void _telnet_init(Device * dev)
  * input buffer.  We get to look first to process any telnet escapes.
  * Except for a little bit of state stored in the dev->u.tcp union,
  * we do all the processing now.
+ * Only the last 'nread' bytes of the buffer are new; what precedes them
+ * went through here when it arrived and must not be interpreted again.
  */
-static void _telnet_preprocess(Device * dev)
+static void _telnet_preprocess(Device * dev, int nread)
 {
     static unsigned char peek[MAX_DEV_BUF];
     static unsigned char device[MAX_DEV_BUF];
@@ -389,7 +391,9 @@ static void _telnet_preprocess(Device * dev)
     int len, i, k;
 
     len = cbuf_peek(dev->from, peek, MAX_DEV_BUF);
-    for (i = 0, k = 0; i < len; i++) {
+    for (i = 0, k = 0; i < len - nread; i++)
+        device[k++] = peek[i];
+    for (; i < len; i++) {
         switch (tcp->tstate) {
         case TELNET_NONE:
             if (peek[i] == IAC)
